@@ -40,6 +40,9 @@ VEST_POOLS = mbt("vesting-pools", VEST, "MBT_Vesting.tla", "vesting", "mc/MBT_Ve
 VEST_ACCTS = mbt("vesting-accounts", VEST, "MBT_Vesting.tla", "vesting", "mc/MBT_Vesting_accounts_quick.cfg", "mc/MBT_Vesting_accounts_thorough.cfg")
 VEST_TWO = mbt("vesting-two-denoms", VEST, "MBT_Vesting.tla", "vesting", "mc/MBT_Vesting_two_quick.cfg", "mc/MBT_Vesting_two_quick.cfg")
 
+SIG = ["Signature.tla", "mc/MBT_Signature.tla"]
+SIG_MBT = mbt("signature", SIG, "MBT_Signature.tla", "signature", "mc/MBT_Signature_quick.cfg", "mc/MBT_Signature_thorough.cfg")
+
 TRUST = ["TLC 1.8.0 and the TLA+ CommunityModules Json module", "the Go harness projection functions (harness/*)",
          "cosmos-sdk bank/auth keepers as the ground truth for balances and accounts"]
 
@@ -53,7 +56,10 @@ PROPS = {
     "C06": {"level": "model_checking", "stages": [VEST_MC, VEST_POOLS], "assumptions": VEST_ASSUME},
     "C08": {"level": "model_checking", "stages": [VEST_MC, VEST_POOLS, VEST_ACCTS], "assumptions": VEST_ASSUME},
     "C07": {"level": "model_checking", "stages": [VEST_MC, VEST_ACCTS, VEST_TWO], "assumptions": VEST_ASSUME},
-    "C09": {"level": "model_checking", "stages": [VEST_MC, VEST_ACCTS, VEST_POOLS], "assumptions": VEST_ASSUME},
+    "C09": {"level": "model_checking", "stages": [VEST_MC, VEST_ACCTS, VEST_POOLS, SIG_MBT], "assumptions": VEST_ASSUME},
+    "C15": {"level": "model_checking", "stages": [SIG_MBT],
+            "assumptions": TRUST + ["cryptography is abstract in the model; the harness concretises keys with generated ECDSA P-256 / RSA-2048 self-signed certificates, so soundness is relative to Go's crypto/x509",
+                                    "the cfesignature Msg service is not registered with the application's router; the harness calls keeper.NewMsgServerImpl directly"]},
     "C17": {"level": "model_checking", "stages": [VEST_MC, VEST_ACCTS, VEST_POOLS], "assumptions": VEST_ASSUME},
     "C03": {"level": "model_checking", "stages": [DIST_MC, DIST_CUR, DIST_MULTI, DIST_SINGLE], "assumptions": DIST_ASSUME},
     "C04": {"level": "model_checking", "stages": [DIST_MC, DIST_CUR, DIST_MULTI, DIST_SINGLE], "assumptions": DIST_ASSUME},
